@@ -607,8 +607,8 @@ func init() {
 		Rule: "Engine A, all choices Full: (a) 20 integer kinds x every integer literal in [-70000,70000] (exhaustive for 8/16-bit kinds and their out-of-range neighbourhood) + +-2^k+{-2..2} (k<=70) + +-10^k+{-1,0,1} (k<=21) + fractions/exponents/-0/null/true/false/strings/arrays, each through Attr.UnmarshalToType and through UnmarshalResource (soft and struct-backed); (b) string/bool/time/bytes kinds x alphabet in 3 JSON encodings, RFC3339 offsets x precisions, near-miss invalid times, canonical and non-canonical base64, wrong JSON kinds; (c) whole payloads: 3^5 attribute presence/value combinations x 5 to-one x 7 to-many forms x 3 ids x 2 implementations, re-marshaled and re-read. Oracle: accepted => stored value equals the math/big / own-unescaper / time.Parse / encoding/base64 reading of the literal; non-trivial = literal that is out of range, fractional, of the wrong kind, or a whole payload",
 		Assumptions: []string{"no completeness demand: exotic spellings may be rejected; only 'accepted => exact' is judged", "a panic counts as not accepted here (panic freedom is C05)"},
 		Harnesses: []Harness{
-			{Name: "C06/int", Body: c06Int},
-			{Name: "C06/other", Body: c06Other},
+			{Name: "C06/int", Body: c06Int, ShardDepth: 1},
+			{Name: "C06/other", Body: c06Other, ShardDepth: 1},
 			{Name: "C06/resource", Body: c06Resource},
 		},
 	})
